@@ -21,6 +21,14 @@ CHECKS = {
             "each decomposition algorithm. Held on the executions observed; evidence lists input classes and worst errors.",
             "local matrices from BasisSet.op_mat (judged by C16); dims <= 1024; uint16 table limits out of reach",
             "DESIGN.md section 3 / C01"),
+    "C03": ("exploration",
+            "reference-model monitor over recorded operation histories: every arithmetic result is compared with the "
+            "same operation on dense operands, immediately and after canonicalising/compressing a copy",
+            "Histories of 4..12 operations over pools of states (own gauge history, centre, direction, prefactor each) "
+            "and charged/neutral operators; scalar results (dot, angle, norms, distance, expectation, transition "
+            "amplitude) against dense values; total charge bookkeeping of products and adjoints asserted.",
+            "tensor-level convention for dot/mp_norm/expectation (coeff separate), prod(d) <= 400",
+            "DESIGN.md section 3 / C03"),
     "C20": ("exploration",
             "icontract postcondition on bipartite_vertex_cover at every call site + hook on _decompose_graph + "
             "small-scope exhaustive enumeration of graphs, against the harness's own maximum matching / brute force",
